@@ -69,7 +69,7 @@ local n = 0
 local t = setmetatable({}, {__call = function(self, ...) n = n + 1 if n > 3000000 then return n end return self(...) end})
 return pcall(t, 1, 2)`},
 	// a __call metamethod that is itself a table with a __call metamethod ...
-	{name: "call-table-chain", hangs: "__call chain through tables loops in Go without consuming CPU budget", src: `
+	{name: "call-table-chain", src: `
 local t = {}
 setmetatable(t, {__call = t})
 local ok, err = pcall(t)
@@ -205,6 +205,21 @@ local function nest(n)
 end
 local ok, err = pcall(nest, 1)
 return ok, type(err)`},
+	// a limit hit inside a __close handler that runs because its coroutine dies
+	{name: "close-handler-killed-at-coroutine-close", src: `
+local c = coroutine.create(function() local x <close> = setmetatable({}, {__close = function() while true do end end}) coroutine.yield() end)
+coroutine.resume(c)
+return runtime.callcontext({kill = {cpu = 10000}}, function() coroutine.close(c) end)`},
+	{name: "close-handler-killed-at-coroutine-error", src: `
+local c = coroutine.wrap(function() local x <close> = setmetatable({}, {__close = function() local t = {} while true do t[#t + 1] = ("x"):rep(1000) .. #t end end}) error("e") end)
+return runtime.callcontext({kill = {memory = 1000000}}, function() return pcall(c) end)`},
+	{name: "close-handler-uses-coroutines-at-coroutine-close", src: `
+local c = coroutine.create(function() local x <close> = setmetatable({}, {__close = function()
+  local i = coroutine.wrap(function() coroutine.yield(1) return 2 end)
+  return i() + i()
+end}) coroutine.yield() end)
+coroutine.resume(c)
+return coroutine.close(c)`},
 	{name: "coroutine-resume-self", src: `
 local co
 co = coroutine.create(function() return coroutine.resume(co) end)
@@ -213,7 +228,7 @@ local w
 w = coroutine.wrap(function() return w() end)
 local ok, err = pcall(w)
 return a, b, ok`},
-	{name: "coroutine-close-chain", hangs: "coroutine.close from a __close handler of a coroutine that is being closed deadlocks", src: `
+	{name: "coroutine-close-chain", src: `
 local function mk(n)
   return coroutine.create(function()
     local x <close> = setmetatable({}, {__close = function() if n > 0 then local c = mk(n - 1) coroutine.resume(c) coroutine.close(c) end end})
